@@ -19,10 +19,11 @@ EXTENDS Integers, Sequences, FiniteSets, TLC, SequencesExt, FiniteSetsExt
 
 CONSTANTS Names,            \* the variable names of the expression (integers: TLC cannot order strings)
           KeysFromSorted,   \* MUTANT when TRUE: keys taken from sorted(names), values from dict order (zip misalignment)
-          FoldOnlyOnce      \* MUTANT when TRUE: a shared closed sub-expression can be folded by the FIRST normalisation only
+          FoldOnlyOnce,     \* MUTANT when TRUE: a shared closed sub-expression can be folded by the FIRST normalisation only
+          ChildrenAsSet     \* MUTANT when TRUE: an n-ary node walks set(children) instead of the argument list (seed C18_r3mut1)
 
-VARIABLES order, stored, folded, obs
-vars == <<order, stored, folded, obs>>
+VARIABLES order, corder, stored, folded, obs
+vars == <<order, corder, stored, folded, obs>>
 
 Perms == {s \in [1..Cardinality(Names) -> Names] : \A a, b \in 1..Cardinality(Names) : a # b => s[a] # s[b]}
 Sorted == SetToSortSeq(Names, LAMBDA a, b: a < b)
@@ -37,17 +38,26 @@ Component(d, v) == LET j == Lookup(d, v) IN IF j = 0 THEN <<"zero">> ELSE d[j][2
 \* structure of the normalised partial w.r.t. v: contains the shared closed sub-expression either folded to a constant or not
 Structure(ord, v) == LET pos == CHOOSE j \in 1..Len(ord) : ord[j] = v IN
    IF FoldOnlyOnce /\ pos > 1 THEN <<"partial", v, "unfolded">> ELSE <<"partial", v, "folded">>
-Observables(ord) == [v \in Names |-> <<Component(Evaluate(BuildDict(ord)), v), Structure(ord, v)>>]
+\* A second hash-ordered collection (session 3): the CHILDREN of an n-ary node.  Expression hashes contain str hashes, so
+\* set(children) iterates in a seed-dependent order.  The reverse sweep adds one contribution per child to the accumulator of
+\* each variable; float addition is not associative and the symbolic accumulator builds Add(...) in arrival order, so the
+\* observable is the SEQUENCE of contributions, not their multiset.  The code walks the argument list (NC children, in order).
+NC == 3
+CPerms == {s \in [1..NC -> 1..NC] : \A a, b \in 1..NC : a # b => s[a] # s[b]}
+ArgList == [j \in 1..NC |-> j]
+Accumulated(co) == [j \in 1..NC |-> <<"contribution of child", (IF ChildrenAsSet THEN co[j] ELSE ArgList[j])>>]
+Observables(ord, co) == [v \in Names |-> <<Component(Evaluate(BuildDict(ord)), v), Structure(ord, v), Accumulated(co)>>]
 
 Init == /\ order \in Perms
+        /\ corder \in CPerms
         /\ stored = BuildDict(order)
         /\ folded = {}
-        /\ obs = Observables(order)
+        /\ obs = Observables(order, corder)
 Next == UNCHANGED vars
 Spec == Init /\ [][Next]_vars
 
 \* C18: every observable is the same for every iteration order (compare with the canonical, sorted order)
-OrderInsensitive == obs = Observables(Sorted)
+OrderInsensitive == obs = Observables(Sorted, ArgList)
 \* and each component is the partial of ITS variable
 ComponentsAligned == \A v \in Names : obs[v][1] = Payload(v)
 =============================================================================
